@@ -177,12 +177,13 @@ Lemma zrange_length from n : length (zrange from n) = n.
 Proof. revert from. induction n as [|n IH]; intros from; cbn; [reflexivity|now rewrite IH]. Qed.
 
 Section Proofs.
-  Variable hashf : Z -> bool -> Z.
+  Variable hashf : Z -> Z -> bool -> Z.
   Variable choice : Z -> Z -> list Z.
   Variable rows : list row.
+  Variable known : list Z.
 
   Hypothesis hash_inj :
-    forall v b v' b', hashf v b = hashf v' b' -> v = v' /\ b = b'.
+    forall id v b v' b', hashf id v b = hashf id v' b' -> v = v' /\ b = b'.
 
   Notation ones := (ones rows).
   Notation col := (col rows).
@@ -197,9 +198,9 @@ Section Proofs.
     - rewrite band_map, IH. apply map_ext. intros r. now rewrite andb_assoc.
   Qed.
 
-  Lemma fold_band_cols (h : fval -> bool) fs (q : row -> bool) :
-    fold_left (fun acc f => band acc (map h (col f))) fs (map q rows)
-    = map (fun r => q r && forallb (fun f => h (val r f)) fs) rows.
+  Lemma fold_band_cols (h : fval -> bool) (cf : Z -> Z) fs (q : row -> bool) :
+    fold_left (fun acc f => band acc (map h (col (cf f)))) fs (map q rows)
+    = map (fun r => q r && forallb (fun f => h (val r (cf f))) fs) rows.
   Proof.
     revert q. induction fs as [|f fs IH]; intros q; cbn.
     - apply map_ext. intros r. now rewrite andb_true_r.
@@ -208,11 +209,11 @@ Section Proofs.
   Qed.
 
   (* ---- invalid events ---------------------------------------------------- *)
-  Lemma invalid_arr_spec feats rm :
-    invalid_arr rows feats rm = map (spec_invalid_row feats rm) rows.
+  Lemma invalid_arr_spec feats fc rm :
+    invalid_arr rows feats fc rm = map (spec_invalid_row feats fc rm) rows.
   Proof.
     unfold invalid_arr, spec_invalid_row. destruct rm; [|reflexivity].
-    unfold C03.ones. rewrite fold_band_cols. apply map_ext. intros r. cbn.
+    unfold C03.ones. rewrite (fold_band_cols _ (colof fc)). apply map_ext. intros r. cbn.
     apply forallb_ext'. intros f. now rewrite orb_comm.
   Qed.
 
@@ -226,11 +227,12 @@ Section Proofs.
     symmetry. now apply fisnan_inside.
   Qed.
 
-  Definition fmask (rg : ranges) (f : Z) : list bool := map (spec_feat rg f) rows.
+  Definition fmask (fc : list (Z * Z)) (rg : ranges) (f : Z) : list bool :=
+    map (spec_feat fc rg f) rows.
 
-  Lemma box_one_spec feats cur bf f :
-    box_one rows feats cur bf f
-    = if memZ f feats then dict_set f (fmask cur f) bf else bf.
+  Lemma box_one_spec feats fc cur bf f :
+    box_one rows feats fc cur bf f
+    = if memZ f feats then dict_set f (fmask fc cur f) bf else bf.
   Proof.
     unfold box_one, fmask, spec_feat. destruct (memZ f feats); [|reflexivity].
     destruct (rget cur f) as [[lo|] [hi|]]; try reflexivity.
@@ -319,9 +321,9 @@ Section Proofs.
       apply feq_true in E. now subst.
   Qed.
 
-  Lemma unchanged_spec_feat cur old f :
+  Lemma unchanged_spec_feat fc cur old f :
     ~ In f (changed_keys cur old) -> ~ In f (removed_keys cur old) ->
-    forall r, spec_feat cur f r = spec_feat old f r.
+    forall r, spec_feat fc cur f r = spec_feat fc old f r.
   Proof.
     intros Hc Hr r. unfold spec_feat. now rewrite (unchanged_rget cur old f Hc Hr).
   Qed.
@@ -340,15 +342,16 @@ Section Proofs.
   Qed.
 
   (* ---- the box cache ------------------------------------------------------ *)
-  (* every cached mask is the one of the settings of the last successful
-     application (the data of a feature never changes) *)
-  Definition BoxInv (bf : list (Z * list bool)) (rg : ranges) : Prop :=
-    forall f m, In (f, m) bf -> m = fmask rg f.
+  (* every cached mask of a feature whose data were not replaced since is the
+     one of the settings of the last successful application *)
+  Definition BoxInv (bf : list (Z * list bool)) (fc : list (Z * Z)) (rg : ranges)
+             (st : list Z) : Prop :=
+    forall f m, In (f, m) bf -> ~ In f st -> m = fmask fc rg f.
 
-  Lemma fold_box_In feats cur F : forall bf0 f m,
+  Lemma fold_box_In feats fc cur F : forall bf0 f m,
     (forall f m, In (f, m) bf0 -> In f feats) ->
-    In (f, m) (fold_left (box_one rows feats cur) F bf0) ->
-    (In f feats /\ m = fmask cur f) \/ (~ In f F /\ In (f, m) bf0).
+    In (f, m) (fold_left (box_one rows feats fc cur) F bf0) ->
+    (In f feats /\ m = fmask fc cur f) \/ (~ In f F /\ In (f, m) bf0).
   Proof.
     induction F as [|f0 F IH]; intros bf0 f m Hk Hin; cbn in Hin.
     - right. split; [intros []|assumption].
@@ -366,8 +369,8 @@ Section Proofs.
         subst f0. apply Hk in Hin. apply memZ_In in Hin. congruence.
   Qed.
 
-  Lemma fold_box_keys feats cur F : forall bf0 f,
-    has_key f (fold_left (box_one rows feats cur) F bf0)
+  Lemma fold_box_keys feats fc cur F : forall bf0 f,
+    has_key f (fold_left (box_one rows feats fc cur) F bf0)
     = has_key f bf0 || (memZ f F && memZ f feats).
   Proof.
     induction F as [|f0 F IH]; intros bf0 f; cbn [fold_left].
@@ -383,33 +386,40 @@ Section Proofs.
         now rewrite !andb_false_r.
   Qed.
 
-  (* after pruning (_init_rtdc_ds) and the refiltering loop every cached mask
-     belongs to a feature of the dataset and to the current settings, and a
-     feature without cached mask has no range key at all *)
-  Lemma box_update_inv feats bf_old cur old force :
-    BoxInv bf_old old ->
+  (* after pruning (_init_rtdc_ds) and the refiltering loop: every cached mask
+     belongs to a feature of the dataset; it belongs to the current settings
+     unless the feature is still stale; a feature without cached mask has no
+     range key at all *)
+  Lemma box_update_inv feats fc bf_old cur old st force :
+    BoxInv bf_old fc old st ->
     let bf0 := prune_box feats bf_old in
-    let bf := fold_left (box_one rows feats cur)
-                        (feat2filter true true feats bf0 cur old force) bf0 in
-    (forall f m, In (f, m) bf -> In f feats /\ m = fmask cur f) /\
+    let F := feat2filter true true feats bf0 cur old force in
+    let bf := fold_left (box_one rows feats fc cur) F bf0 in
+    let st' := filter (fun f => negb (memZ f F) && has_key f bf0) st in
+    (forall f m, In (f, m) bf -> In f feats /\ (~ In f st' -> m = fmask fc cur f)) /\
     (forall f, In f feats -> has_key f bf = false ->
-               forall r, spec_feat cur f r = true).
+               forall r, spec_feat fc cur f r = true).
   Proof.
-    intros HI bf0 bf.
+    intros HI bf0 F bf st'.
     assert (forall f m, In (f, m) bf0 -> In f feats) as Hk0.
     { intros f m Hin. apply filter_In in Hin. destruct Hin as [_ Hm].
       now apply memZ_In in Hm. }
     split.
     - intros f m Hin. apply fold_box_In in Hin; [|assumption].
-      destruct Hin as [Hg|[Hni Hin]]; [assumption|].
-      split; [now apply Hk0 in Hin|].
-      apply filter_In in Hin. destruct Hin as [Hin _]. apply HI in Hin. subst m.
-      rewrite In_feat2filter in Hni. unfold fmask. apply map_ext. intros r.
-      symmetry. apply unchanged_spec_feat; intuition.
+      destruct Hin as [[Hf Hm]|[Hni Hin]]; [now split|].
+      split; [now apply Hk0 in Hin|]. intros Hst.
+      assert (~ In f st) as Hst0.
+      { intros Hs. apply Hst. unfold st'. apply filter_In. split; [assumption|].
+        apply memZ_false in Hni. rewrite Hni. cbn.
+        apply has_key_In. apply in_map_iff. now exists (f, m). }
+      apply filter_In in Hin. destruct Hin as [Hin _].
+      rewrite (HI _ _ Hin Hst0).
+      unfold F in Hni. rewrite In_feat2filter in Hni. unfold fmask. apply map_ext.
+      intros r. symmetry. apply unchanged_spec_feat; intuition.
     - intros f Hf Hk r. unfold bf in Hk. rewrite fold_box_keys in Hk.
       apply orb_false_iff in Hk. destruct Hk as [Hk0' Hk1].
       pose proof Hf as Hf'. apply memZ_In in Hf'. rewrite Hf', andb_true_r in Hk1.
-      apply memZ_false in Hk1. rewrite In_feat2filter in Hk1.
+      apply memZ_false in Hk1. unfold F in Hk1. rewrite In_feat2filter in Hk1.
       assert (has_any_key cur f = false) as Hany.
       { destruct (has_any_key cur f) eqn:E; [|reflexivity]. exfalso.
         apply Hk1. right. right. right. unfold late_keys. apply filter_In.
@@ -427,15 +437,15 @@ Section Proofs.
     now apply H.
   Qed.
 
-  Lemma box_array_spec feats bf cur :
-    (forall f m, In (f, m) bf -> In f feats /\ m = fmask cur f) ->
+  Lemma box_array_spec feats fc bf cur :
+    (forall f m, In (f, m) bf -> In f feats /\ m = fmask fc cur f) ->
     (forall f, In f feats -> has_key f bf = false ->
-               forall r, spec_feat cur f r = true) ->
-    fold_left band (map snd bf) ones = map (spec_box_row feats cur) rows.
+               forall r, spec_feat fc cur f r = true) ->
+    fold_left band (map snd bf) ones = map (spec_box_row feats fc cur) rows.
   Proof.
     intros HI HC.
-    assert (map snd bf = map (fun k => map (spec_feat cur k) rows) (map fst bf)) as ->.
-    { apply (masks_of_keys bf (fun m => m) (spec_feat cur)).
+    assert (map snd bf = map (fun k => map (spec_feat fc cur k) rows) (map fst bf)) as ->.
+    { apply (masks_of_keys bf (fun m => m) (spec_feat fc cur)).
       intros k v Hin. now apply HI in Hin. }
     unfold C03.ones. rewrite fold_band_keys. apply map_ext. intros r. cbn.
     unfold spec_box_row. apply forallb_subset.
@@ -459,11 +469,11 @@ Section Proofs.
 
   Definition PolyInv (pf : list (Z * (Z * list bool))) : Prop :=
     forall id h m, In (id, (h, m)) pf ->
-                   exists v b, h = hashf v b /\ m = pmask v b.
+                   exists v b, h = hashf id v b /\ m = pmask v b.
 
   (* the entry is the one the current registry asks for *)
   Definition Cur (rg : registry) (e : Z * (Z * list bool)) : Prop :=
-    snd e = (hashf (fst (reg_get rg (fst e))) (snd (reg_get rg (fst e))),
+    snd e = (hashf (fst e) (fst (reg_get rg (fst e))) (snd (reg_get rg (fst e))),
              pmask (fst (reg_get rg (fst e))) (snd (reg_get rg (fst e)))).
 
   Lemma Cur_PolyInv rg pf : (forall e, In e pf -> Cur rg e) -> PolyInv pf.
@@ -481,18 +491,18 @@ Section Proofs.
   Proof.
     intros Hnd HI. unfold poly_one.
     destruct (reg_get rg id) as [v b] eqn:Er.
-    assert (forall e, In e (dict_set id (hashf v b, pfilter rows v b) pf) ->
+    assert (forall e, In e (dict_set id (hashf id v b, pfilter rows v b) pf) ->
                       (fst e = id /\ Cur rg e) \/ (fst e <> id /\ In e pf)) as Hset.
     { intros [k [h m]] Hin. apply In_dict_set in Hin.
       destruct Hin as [[-> He]|[Hne Hin]]; [left|now right].
       split; [reflexivity|]. unfold Cur. cbn. rewrite Er. cbn.
       now rewrite He, pfilter_spec. }
-    assert (PolyInv (dict_set id (hashf v b, pfilter rows v b) pf)) as Hset_inv.
+    assert (PolyInv (dict_set id (hashf id v b, pfilter rows v b) pf)) as Hset_inv.
     { intros k h m Hin. apply In_dict_set in Hin.
       destruct Hin as [[-> He]|[Hne Hin]]; [|now apply HI in Hin].
       injection He as -> ->. exists v, b. now rewrite pfilter_spec. }
     destruct (lookup id pf) as [[h' m']|] eqn:El.
-    - destruct (hashf v b =? h') eqn:Eh.
+    - destruct (hashf id v b =? h') eqn:Eh.
       + cbn. repeat split; try assumption.
         * intros [k [h m]] Hin. destruct (Z.eq_dec k id) as [->|Hne]; [left|now right].
           split; [reflexivity|].
@@ -583,14 +593,17 @@ Section Proofs.
     limit_events choice a lim
     = if lim <? count_true a then thin (choice (count_true a) lim) a 0 else a.
   Proof.
-    intros Hl. unfold limit_events.
-    replace (negb (lim =? 0)) with true by lia. cbn [andb].
-    destruct (lim <? count_true a).
-    - set (idx := map _ _).
+    intros Hl. unfold limit_events. pose proof (count_true_nonneg a) as Hm.
+    destruct (lim <? count_true a) eqn:E.
+    - replace (Z.min lim (count_true a)) with lim by lia.
+      replace (negb (lim =? 0)) with true by lia. rewrite E. cbn [andb].
+      set (idx := map _ _).
       replace (Z.to_nat (count_true a)) with (length idx)
         by (unfold idx; now rewrite map_length, zrange_length).
       rewrite band_repeat_true. unfold idx. apply scatter_thin.
-    - replace (Z.to_nat (count_true a)) with (length (repeat true (Z.to_nat (count_true a))))
+    - replace (Z.min lim (count_true a)) with (count_true a) by lia.
+      rewrite Z.ltb_irrefl, andb_false_r.
+      replace (Z.to_nat (count_true a)) with (length (repeat true (Z.to_nat (count_true a))))
         at 1 by apply repeat_length.
       rewrite band_repeat_true. apply scatter_all_true.
   Qed.
@@ -668,17 +681,18 @@ Section Proofs.
 
   (* ---- the invariant of the filter object -------------------------------- *)
   Definition Inv (w : world) : Prop :=
-    BoxInv (box_filters (flt w)) (old_rng (flt w)) /\
+    BoxInv (box_filters (flt w)) (fcol w) (old_rng (flt w)) (stale w) /\
     NoDup (map fst (poly_filters (flt w))) /\
     PolyInv (poly_filters (flt w)) /\
     (forall f, half_set (old_rng (flt w)) f = false).
 
-  Notation step := (step hashf choice rows HEAD).
-  Notation update := (update hashf choice rows HEAD).
-  Notation run := (run hashf choice rows HEAD).
+  Notation step := (step hashf choice rows known HEAD).
+  Notation update := (update hashf choice rows known HEAD).
+  Notation run := (run hashf choice rows known HEAD).
 
-  Lemma Inv_reset c rg fs e :
-    Inv {| cfg := c; reg := rg; flt := reset_fstate rows; feats := fs; err := e |}.
+  Lemma Inv_reset c rg fs fc st e :
+    Inv {| cfg := c; reg := rg; flt := reset_fstate rows; feats := fs;
+           fcol := fc; stale := st; err := e |}.
   Proof.
     unfold Inv. cbn. split; [|split; [|split]].
     - intros f m [].
@@ -687,7 +701,33 @@ Section Proofs.
     - reflexivity.
   Qed.
 
-  (* the application raises iff some range has exactly one of its keys *)
+  Lemma lookup_dict_set_other {A} k (v : A) d k' :
+    k' <> k -> lookup k' (dict_set k v d) = lookup k' d.
+  Proof.
+    intros Hne. unfold dict_set. destruct (has_key k d).
+    - induction d as [|[k0 v0] d IH]; cbn; [reflexivity|].
+      destruct (k =? k0) eqn:E; cbn.
+      + apply Z.eqb_eq in E. subst k0.
+        replace (k' =? k) with false by lia. apply IH.
+      + destruct (k' =? k0); [reflexivity|apply IH].
+    - induction d as [|[k0 v0] d IH]; cbn.
+      + now replace (k' =? k) with false by lia.
+      + destruct (k' =? k0); [reflexivity|apply IH].
+  Qed.
+
+  (* replacing the data of feature f marks it stale; other features keep
+     their column *)
+  Lemma BoxInv_replace bf fc rg st f c :
+    BoxInv bf fc rg st -> BoxInv bf (dict_set f c fc) rg (f :: st).
+  Proof.
+    intros H g m Hin Hni.
+    assert (g <> f) as Hne by (intros ->; apply Hni; now left).
+    rewrite (H g m Hin) by (intros Hs; apply Hni; now right).
+    unfold fmask, spec_feat, colof. now rewrite lookup_dict_set_other.
+  Qed.
+
+  (* the application raises iff `force` names an unknown feature or some
+     range has exactly one of its keys *)
   Lemma raises_iff fs bf cur old force :
     (forall f, half_set old f = false) ->
     existsb (half_set cur) (feat2filter true true fs bf cur old force) = true
@@ -700,14 +740,25 @@ Section Proofs.
       destruct (half_set_changed cur old f (Ho f) Hf); auto.
   Qed.
 
+  Lemma unknown_force_iff force :
+    existsb (fun f => negb (memZ f known)) force = true
+    <-> exists f, In f force /\ ~ In f known.
+  Proof.
+    rewrite existsb_exists. split; intros [f [Hin Hf]]; exists f; split; try assumption.
+    - apply negb_true_iff in Hf. now apply memZ_false.
+    - apply negb_true_iff. now apply memZ_false.
+  Qed.
+
   Lemma update_correct w force :
     Inv w ->
     let w' := update w force in
     Inv w' /\
     cfg w' = cfg w /\ reg w' = reg w /\ manual (flt w') = manual (flt w) /\
-    feats w' = feats w /\
-    (err w' = true <-> exists f, half_set (rng (cfg w)) f = true) /\
-    (err w' = false ->
+    feats w' = feats w /\ fcol w' = fcol w /\
+    (err w' = true <->
+     (exists f, In f force /\ ~ In f known)
+     \/ exists f, half_set (rng (cfg w)) f = true) /\
+    (err w' = false -> stale w' = [] ->
      a_box (flt w') = spec_box rows w /\
      a_invalid (flt w') = spec_invalid rows w /\
      a_polygon (flt w') = spec_polygon rows w /\
@@ -716,42 +767,73 @@ Section Proofs.
     intros [HBI [HND [HPI HOP]]].
     pose proof (raises_iff (feats w) (prune_box (feats w) (box_filters (flt w)))
                            (rng (cfg w)) _ force HOP) as Hraise.
+    pose proof (unknown_force_iff force) as Hunk.
+    assert (Inv {| cfg := cfg w; reg := reg w;
+                   flt := {| box_filters := prune_box (feats w) (box_filters (flt w));
+                             poly_filters := prune_polys (polys (cfg w))
+                                                         (poly_filters (flt w));
+                             a_all := a_all (flt w); a_box := a_box (flt w);
+                             a_polygon := a_polygon (flt w);
+                             a_invalid := invalid_arr rows (feats w) (fcol w)
+                                                      (rm_invalid (cfg w));
+                             manual := manual (flt w);
+                             old_rng := old_rng (flt w) |};
+                   feats := feats w; fcol := fcol w; stale := stale w;
+                   err := true |}) as HInvRaise.
+    { unfold Inv. cbn [flt box_filters poly_filters old_rng fcol stale].
+      split.
+      { intros f m Hin. apply filter_In in Hin. destruct Hin as [Hin _].
+        now apply HBI. }
+      split; [now apply NoDup_keys_filter|]. split; [|assumption].
+      intros id h m Hin. apply filter_In in Hin. destruct Hin as [Hin _].
+      now apply HPI in Hin. }
     cbn zeta. unfold C03.update. cbn [precheck see_removed late_feats HEAD].
-    destruct (existsb (half_set (rng (cfg w)))
+    destruct (existsb (fun f => negb (memZ f known)) force) eqn:Eu;
+      [|destruct (existsb (half_set (rng (cfg w)))
                 (feat2filter true true (feats w)
                    (prune_box (feats w) (box_filters (flt w)))
-                   (rng (cfg w)) (old_rng (flt w)) force)) eqn:Eh;
-      cbn [cfg reg flt err feats box_filters poly_filters old_rng
+                   (rng (cfg w)) (old_rng (flt w)) force)) eqn:Eh];
+      cbn [cfg reg flt err feats fcol stale box_filters poly_filters old_rng
            a_all a_box a_polygon a_invalid manual].
-    - (* ValueError *)
-      split.
-      { unfold Inv. cbn [flt box_filters poly_filters old_rng].
-        split.
-        { intros f m Hin. apply filter_In in Hin. destruct Hin as [Hin _].
-          now apply HBI in Hin. }
-        split; [now apply NoDup_keys_filter|]. split; [|assumption].
-        intros id h m Hin. apply filter_In in Hin. destruct Hin as [Hin _].
-        now apply HPI in Hin. }
+    - (* ValueError: unknown feature name in force *)
+      split; [exact HInvRaise|].
       split; [reflexivity|]. split; [reflexivity|]. split; [reflexivity|].
-      split; [reflexivity|].
-      split; [|discriminate]. split; [intros _; now apply Hraise|reflexivity].
-    - destruct (box_update_inv (feats w) _ (rng (cfg w)) _ force HBI) as [HBI' HBC'].
+      split; [reflexivity|]. split; [reflexivity|].
+      split; [|discriminate]. split; [intros _; left; now apply Hunk|reflexivity].
+    - (* ValueError: a range with one key only *)
+      split; [exact HInvRaise|].
+      split; [reflexivity|]. split; [reflexivity|]. split; [reflexivity|].
+      split; [reflexivity|]. split; [reflexivity|].
+      split; [|discriminate]. split; [intros _; right; now apply Hraise|reflexivity].
+    - destruct (box_update_inv (feats w) (fcol w) _ (rng (cfg w)) _ _ force HBI)
+        as [HBI' HBC'].
       destruct (poly_update_spec (reg w) (polys (cfg w)) _ HND HPI)
         as [HND' [HPI' Hpoly]].
-      pose proof (box_array_spec _ _ _ HBI' HBC') as Hbox.
       assert (forall f, half_set (rng (cfg w)) f = false) as HOP'.
       { intros f. destruct (half_set (rng (cfg w)) f) eqn:E; [|reflexivity].
         assert (false = true) as Hc by (apply Hraise; now exists f).
         discriminate Hc. }
       split.
-      { unfold Inv. cbn [flt box_filters poly_filters old_rng].
+      { unfold Inv. cbn [flt box_filters poly_filters old_rng fcol stale].
         split; [|exact (conj HND' (conj HPI' HOP'))].
-        intros f m Hin. now apply HBI' in Hin. }
+        intros f m Hin Hst. now apply (HBI' f m Hin). }
       split; [reflexivity|]. split; [reflexivity|]. split; [reflexivity|].
-      split; [reflexivity|].
+      split; [reflexivity|]. split; [reflexivity|].
       split.
-      { split; [discriminate|]. intros [f Hf]. now rewrite HOP' in Hf. }
-      intros _.
+      { split; [discriminate|]. intros [[f [Hf1 Hf2]]|[f Hf]].
+        - assert (false = true) as Hc by (apply Hunk; now exists f). discriminate Hc.
+        - now rewrite HOP' in Hf. }
+      intros _ Hst.
+      assert (fold_left band
+                (map snd (fold_left (box_one rows (feats w) (fcol w) (rng (cfg w)))
+                   (feat2filter true true (feats w)
+                      (prune_box (feats w) (box_filters (flt w)))
+                      (rng (cfg w)) (old_rng (flt w)) force)
+                   (prune_box (feats w) (box_filters (flt w))))) ones
+              = map (spec_box_row (feats w) (fcol w) (rng (cfg w))) rows) as Hbox.
+      { apply box_array_spec; [|exact HBC'].
+        intros f m Hin. destruct (HBI' f m Hin) as [Hf Hm]. split; [assumption|].
+        apply Hm. rewrite Hst. intros []. }
       split; [exact Hbox|]. split; [apply invalid_arr_spec|]. split; [exact Hpoly|].
       unfold spec_all. destruct (enable (cfg w)); [|reflexivity].
       rewrite Hbox, Hpoly, invalid_arr_spec, !band_map.
@@ -763,6 +845,9 @@ Section Proofs.
   Lemma step_Inv w o : Inv w -> Inv (step w o).
   Proof.
     intros H. destruct o; try exact H.
+    - (* ReplaceTemp *)
+      destruct H as [HBI Hrest]. split; [|exact Hrest].
+      cbn. now apply BoxInv_replace.
     - apply Inv_reset.
     - apply (update_correct w force H).
   Qed.
@@ -776,8 +861,10 @@ Section Proofs.
   Lemma history rg0 fs0 ops force :
     let w := run (init_world rows rg0 fs0) ops in
     let w' := update w force in
-    (err w' = true <-> exists f, half_set (rng (cfg w)) f = true) /\
-    (err w' = false ->
+    (err w' = true <->
+     (exists f, In f force /\ ~ In f known)
+     \/ exists f, half_set (rng (cfg w)) f = true) /\
+    (err w' = false -> stale w' = [] ->
      a_all (flt w') = spec_all choice rows w /\
      a_box (flt w') = spec_box rows w /\
      a_polygon (flt w') = spec_polygon rows w /\
@@ -786,15 +873,15 @@ Section Proofs.
     cbn zeta.
     assert (Inv (run (init_world rows rg0 fs0) ops)) as H
         by (apply run_Inv; apply Inv_reset).
-    destruct (update_correct _ force H) as [_ [_ [_ [_ [_ [He Hok]]]]]].
-    split; [exact He|]. intros Hne.
-    destruct (Hok Hne) as [Hb [Hi [Hp Ha]]]. auto.
+    destruct (update_correct _ force H) as [_ [_ [_ [_ [_ [_ [He Hok]]]]]]].
+    split; [exact He|]. intros Hne Hst.
+    destruct (Hok Hne Hst) as [Hb [Hi [Hp Ha]]]. auto.
   Qed.
 
   Lemma history_ok rg0 fs0 ops force :
     let w := run (init_world rows rg0 fs0) ops in
     let w' := update w force in
-    err w' = false ->
+    err w' = false -> stale w' = [] ->
     a_all (flt w') = spec_all choice rows w /\
     a_box (flt w') = spec_box rows w /\
     a_polygon (flt w') = spec_polygon rows w /\
@@ -803,8 +890,70 @@ Section Proofs.
 
   Lemma history_raises rg0 fs0 ops force :
     let w := run (init_world rows rg0 fs0) ops in
-    err (update w force) = true <-> exists f, half_set (rng (cfg w)) f = true.
+    err (update w force) = true <->
+    (exists f, In f force /\ ~ In f known)
+    \/ exists f, half_set (rng (cfg w)) f = true.
   Proof. exact (proj1 (history rg0 fs0 ops force)). Qed.
+
+  (* histories that never replace the data of a feature are never stale *)
+  Fixpoint no_replace (ops : list op) : bool :=
+    match ops with
+    | [] => true
+    | ReplaceTemp _ _ :: _ => false
+    | _ :: ops' => no_replace ops'
+    end.
+
+  Lemma step_stale_nil w o :
+    stale w = [] -> (match o with ReplaceTemp _ _ => False | _ => True end) ->
+    stale (step w o) = [].
+  Proof.
+    intros Hs Ho. destruct o; try exact Hs; try contradiction; try reflexivity.
+    (* Apply *)
+    cbn [C03.step]. unfold C03.update. cbn [precheck see_removed late_feats HEAD].
+    destruct (existsb (fun f => negb (memZ f known)) force); [exact Hs|].
+    destruct (existsb _ _); cbn [stale]; [exact Hs|]. now rewrite Hs.
+  Qed.
+
+  Lemma run_stale_nil ops : forall w,
+    stale w = [] -> no_replace ops = true -> stale (run w ops) = [].
+  Proof.
+    induction ops as [|o ops IH]; intros w Hs Hn; cbn; [assumption|].
+    apply IH.
+    - apply step_stale_nil; [assumption|]. destruct o; try exact I. discriminate Hn.
+    - destruct o; try exact Hn. discriminate Hn.
+  Qed.
+
+  Lemma history_no_replace rg0 fs0 ops force :
+    no_replace ops = true ->
+    let w := run (init_world rows rg0 fs0) ops in
+    let w' := update w force in
+    err w' = false ->
+    a_all (flt w') = spec_all choice rows w /\
+    a_box (flt w') = spec_box rows w /\
+    a_polygon (flt w') = spec_polygon rows w /\
+    a_invalid (flt w') = spec_invalid rows w.
+  Proof.
+    cbn zeta. intros Hn He. apply history_ok; [assumption|].
+    change (stale (step (run (init_world rows rg0 fs0) ops) (Apply force)) = []).
+    apply step_stale_nil; [|exact I]. now apply run_stale_nil.
+  Qed.
+
+  (* forcing the replaced feature makes it fresh: the documented remedy *)
+  Lemma forced_not_stale w force :
+    (forall f, In f (stale w) -> In f force) ->
+    err (update w force) = false -> stale (update w force) = [].
+  Proof.
+    intros Hf. unfold C03.update. cbn [precheck see_removed late_feats HEAD].
+    destruct (existsb (fun f => negb (memZ f known)) force); [discriminate|].
+    destruct (existsb _ _); cbn [stale err]; [discriminate|]. intros _.
+    induction (stale w) as [|f st IH]; cbn; [reflexivity|].
+    assert (In f (feat2filter true true (feats w)
+                   (prune_box (feats w) (box_filters (flt w)))
+                   (rng (cfg w)) (old_rng (flt w)) force)) as Hin.
+    { apply In_feat2filter. right. right. left. apply Hf. now left. }
+    apply memZ_In in Hin. rewrite Hin. cbn. apply IH.
+    intros g Hg. apply Hf. now right.
+  Qed.
 
   (* limit events: exactly min(limit, #qualifying) events remain, all of them
      qualifying *)
@@ -837,24 +986,24 @@ Section Proofs.
   (* the selection is a function of the settings only *)
   Lemma spec_all_settings w1 w2 :
     cfg w1 = cfg w2 -> reg w1 = reg w2 -> manual (flt w1) = manual (flt w2) ->
-    feats w1 = feats w2 ->
+    feats w1 = feats w2 -> fcol w1 = fcol w2 ->
     spec_all choice rows w1 = spec_all choice rows w2.
   Proof.
-    intros Hc Hr Hm Hf. unfold spec_all, spec_qual. now rewrite Hc, Hr, Hm, Hf.
+    intros Hc Hr Hm Hf Hd. unfold spec_all, spec_qual. now rewrite Hc, Hr, Hm, Hf, Hd.
   Qed.
 
   Lemma history_reproducible rg1 fs1 ops1 force1 rg2 fs2 ops2 force2 :
     let w1 := run (init_world rows rg1 fs1) ops1 in
     let w2 := run (init_world rows rg2 fs2) ops2 in
     cfg w1 = cfg w2 -> reg w1 = reg w2 -> manual (flt w1) = manual (flt w2) ->
-    feats w1 = feats w2 ->
+    feats w1 = feats w2 -> fcol w1 = fcol w2 ->
     err (update w1 force1) = false -> err (update w2 force2) = false ->
+    stale (update w1 force1) = [] -> stale (update w2 force2) = [] ->
     a_all (flt (update w1 force1)) = a_all (flt (update w2 force2)).
   Proof.
-    cbn zeta. intros Hc Hr Hm Hf He1 He2.
-    destruct (history rg1 fs1 ops1 force1) as [_ H1].
-    destruct (history rg2 fs2 ops2 force2) as [_ H2].
-    cbn zeta in H1, H2. destruct (H1 He1) as [-> _]. destruct (H2 He2) as [-> _].
+    cbn zeta. intros Hc Hr Hm Hf Hd He1 He2 Hs1 Hs2.
+    destruct (history_ok rg1 fs1 ops1 force1 He1 Hs1) as [-> _].
+    destruct (history_ok rg2 fs2 ops2 force2 He2 Hs2) as [-> _].
     now apply spec_all_settings.
   Qed.
 
@@ -862,16 +1011,15 @@ Section Proofs.
     choice_spec ->
     let w := run (init_world rows rg0 fs0) ops in
     let w' := update w force in
-    err w' = false ->
+    err w' = false -> stale w' = [] ->
     enable (cfg w) = true -> 0 < limit (cfg w) ->
     count_true (a_all (flt w'))
     = Z.min (limit (cfg w)) (count_true (spec_qual rows w)) /\
     Forall2 (fun a q => a = true -> q = true)
             (a_all (flt w')) (spec_qual rows w).
   Proof.
-    cbn zeta. intros Hc Hne He Hl.
-    destruct (history rg0 fs0 ops force) as [_ H]. cbn zeta in H.
-    destruct (H Hne) as [-> _]. now apply limit_exact.
+    cbn zeta. intros Hc Hne Hst He Hl.
+    destruct (history_ok rg0 fs0 ops force Hne Hst) as [-> _]. now apply limit_exact.
   Qed.
 
   Lemma history_disabled rg0 fs0 ops force :
@@ -879,22 +1027,38 @@ Section Proofs.
     err (update w force) = false ->
     enable (cfg w) = false -> a_all (flt (update w force)) = ones.
   Proof.
-    cbn zeta. intros Hne He.
-    destruct (history rg0 fs0 ops force) as [_ H]. cbn zeta in H.
-    destruct (H Hne) as [-> _]. now apply disabled_all.
+    cbn zeta. intros Hne He. unfold C03.update in *.
+    cbn [precheck see_removed late_feats HEAD] in *.
+    destruct (existsb (fun f => negb (memZ f known)) force); [discriminate|].
+    destruct (existsb _ _); cbn [err flt a_all] in *; [discriminate|].
+    now rewrite He.
   Qed.
 
   Lemma history_no_limit rg0 fs0 ops force :
     let w := run (init_world rows rg0 fs0) ops in
-    err (update w force) = false ->
+    err (update w force) = false -> stale (update w force) = [] ->
     enable (cfg w) = true -> limit (cfg w) <= 0 ->
     a_all (flt (update w force)) = spec_qual rows w.
   Proof.
-    cbn zeta. intros Hne He Hl.
-    destruct (history rg0 fs0 ops force) as [_ H]. cbn zeta in H.
-    destruct (H Hne) as [-> _]. now apply no_limit_all.
+    cbn zeta. intros Hne Hst He Hl.
+    destruct (history_ok rg0 fs0 ops force Hne Hst) as [-> _]. now apply no_limit_all.
   Qed.
 End Proofs.
+
+(* a range is inactive when min equals max, when a key is missing, and for a
+   feature without range keys *)
+Lemma spec_feat_inactive fc rg f r :
+  (forall lo hi, rget rg f = (Some lo, Some hi) -> feq lo hi = true) ->
+  spec_feat fc rg f r = true.
+Proof.
+  intros H. unfold spec_feat. destruct (rget rg f) as [[lo|] [hi|]]; try reflexivity.
+  unfold fne. now rewrite (H lo hi eq_refl).
+Qed.
+
+Lemma spec_feat_active fc rg f r lo hi :
+  rget rg f = (Some lo, Some hi) -> feq lo hi = false ->
+  spec_feat fc rg f r = in_range lo hi (val r (colof fc f)).
+Proof. intros H E. unfold spec_feat, fne. now rewrite H, E. Qed.
 
 (* ---- what the specification says about one range (property text) -------- *)
 Lemma in_range_nan lo hi : in_range lo hi FNaN = false.
@@ -936,22 +1100,22 @@ Definition V2 : variant := {| see_removed := true; precheck := true; late_feats 
 
 Lemma unrepaired_refuted :
   forall hashf choice,
-    let w := run hashf choice refute_rows V0
+    let w := run hashf choice refute_rows [0; 1] V0
                  (init_world refute_rows [] [0]) refute_ops in
-    let w' := update hashf choice refute_rows V0 w [] in
+    let w' := update hashf choice refute_rows [0; 1] V0 w [] in
     err w' = false /\ a_all (flt w') <> spec_all choice refute_rows w.
 Proof. intros hashf choice. vm_compute. split; [reflexivity|discriminate]. Qed.
 
 (* the same history on the repaired code *)
 Example repaired_history :
   forall hashf choice,
-    let w := run hashf choice refute_rows HEAD
+    let w := run hashf choice refute_rows [0; 1] HEAD
                  (init_world refute_rows [] [0]) refute_ops in
-    a_all (flt (update hashf choice refute_rows HEAD w [])) = [true].
+    a_all (flt (update hashf choice refute_rows [0; 1] HEAD w [])) = [true].
 Proof. intros hashf choice. vm_compute. reflexivity. Qed.
 
 (* ---- non-vacuity --------------------------------------------------------- *)
-Lemma mk_hash_inj v b v' b' : mk_hash v b = mk_hash v' b' -> v = v' /\ b = b'.
+Lemma mk_hash_inj id v b v' b' : mk_hash id v b = mk_hash id v' b' -> v = v' /\ b = b'.
 Proof. unfold mk_hash. destruct b, b'; intros H; split; try lia; try reflexivity; exfalso; lia. Qed.
 
 (* a choice function that satisfies choice_spec: the first k ranks *)
@@ -998,10 +1162,10 @@ Definition ex_ops : list op :=
    a reversed range, NaN, a tie with a bound, a polygon inverted twice, a
    manual exclusion and an active limit *)
 Example ex_history_values :
-  let w := run mk_hash first_k ex_rows HEAD (init_world ex_rows [(7, (0, false))] [0; 1]) ex_ops in
+  let w := run mk_hash first_k ex_rows [0; 1] HEAD (init_world ex_rows [(7, (0, false))] [0; 1]) ex_ops in
   (enable (cfg w), limit (cfg w), spec_qual ex_rows w,
-   err (update mk_hash first_k ex_rows HEAD w []),
-   a_all (flt (update mk_hash first_k ex_rows HEAD w [])))
+   err (update mk_hash first_k ex_rows [0; 1] HEAD w []),
+   a_all (flt (update mk_hash first_k ex_rows [0; 1] HEAD w [])))
   = (true, 2, [false; false; false; false; true; false; true; true], false,
      [false; false; false; false; true; false; true; false]).
 Proof. vm_compute. reflexivity. Qed.
@@ -1018,10 +1182,10 @@ Definition exc_ops : list op :=
 
 Example exception_safe_history :
   forall hashf choice,
-    let w1 := run hashf choice exc_rows HEAD (init_world exc_rows [] [0; 1])
+    let w1 := run hashf choice exc_rows [0; 1] HEAD (init_world exc_rows [] [0; 1])
                   (firstn 7 exc_ops) in
-    let w := run hashf choice exc_rows HEAD (init_world exc_rows [] [0; 1]) exc_ops in
-    let w' := update hashf choice exc_rows HEAD w [] in
+    let w := run hashf choice exc_rows [0; 1] HEAD (init_world exc_rows [] [0; 1]) exc_ops in
+    let w' := update hashf choice exc_rows [0; 1] HEAD w [] in
     err w1 = true /\ err w' = false /\ a_all (flt w') = [true; true; false; false]
     /\ a_all (flt w') = spec_all choice exc_rows w.
 Proof. intros hashf choice. vm_compute. auto. Qed.
@@ -1031,8 +1195,8 @@ Proof. intros hashf choice. vm_compute. auto. Qed.
    [3, 4]; restoring [1, 2] is not noticed *)
 Lemma sequential_raise_refuted :
   forall hashf choice,
-    let w := run hashf choice exc_rows V1 (init_world exc_rows [] [0; 1]) exc_ops in
-    let w' := update hashf choice exc_rows V1 w [] in
+    let w := run hashf choice exc_rows [0; 1] V1 (init_world exc_rows [] [0; 1]) exc_ops in
+    let w' := update hashf choice exc_rows [0; 1] V1 w [] in
     err w' = false /\ a_all (flt w') <> spec_all choice exc_rows w.
 Proof. intros hashf choice. vm_compute. split; [reflexivity|discriminate]. Qed.
 
@@ -1044,16 +1208,60 @@ Definition late_ops : list op :=
 
 Lemma late_feature_refuted :
   forall hashf choice,
-    let w := run hashf choice exc_rows V2 (init_world exc_rows [] [0]) late_ops in
-    let w' := update hashf choice exc_rows V2 w [] in
+    let w := run hashf choice exc_rows [0; 1] V2 (init_world exc_rows [] [0]) late_ops in
+    let w' := update hashf choice exc_rows [0; 1] V2 w [] in
     err w' = false /\ a_all (flt w') <> spec_all choice exc_rows w.
 Proof. intros hashf choice. vm_compute. split; [reflexivity|discriminate]. Qed.
 
 Example late_feature_history :
   forall hashf choice,
-    let w := run hashf choice exc_rows HEAD (init_world exc_rows [] [0])
+    let w := run hashf choice exc_rows [0; 1] HEAD (init_world exc_rows [] [0])
                  (late_ops ++ [Apply []; DelFeat 1; Apply []; AddFeat 1]) in
-    let w' := update hashf choice exc_rows HEAD w [] in
+    let w' := update hashf choice exc_rows [0; 1] HEAD w [] in
     err w' = false /\ a_all (flt w') = [false; true; true; false]
     /\ a_all (flt w') = spec_all choice exc_rows w.
+Proof. intros hashf choice. vm_compute. auto. Qed.
+
+(* data replacement (set_temporary_feature on an existing temporary feature):
+   rows carry a second column (number 2) for feature 1 *)
+Definition repl_rows : list row :=
+  [ {| vals := [Fin 8;  Fin 0;  Fin 8];  pins := [] |};
+    {| vals := [Fin 16; Fin 8;  Fin 8];  pins := [] |};
+    {| vals := [Fin 24; Fin 16; Fin 40]; pins := [] |};
+    {| vals := [Fin 32; Fin 24; Fin 40]; pins := [] |} ].
+Definition repl_ops : list op :=
+  [ AddFeat 1; SetMin 1 (Fin 8); SetMax 1 (Fin 16); Apply []; ReplaceTemp 1 2 ].
+
+(* with force=[1] the mask follows the new data; the guard [stale = []] holds *)
+Example replaced_data_forced :
+  forall hashf choice,
+    let w := run hashf choice repl_rows [0; 1] HEAD (init_world repl_rows [] [0]) repl_ops in
+    let w' := update hashf choice repl_rows [0; 1] HEAD w [1] in
+    err w' = false /\ stale w' = [] /\ a_all (flt w') = [true; true; false; false]
+    /\ a_all (flt w') = spec_all choice repl_rows w.
+Proof. intros hashf choice. vm_compute. auto. Qed.
+
+(* without force the box cache (no data hash) keeps the mask of the old data:
+   [stale] is not empty and the selection differs from the specification.
+   Replacing feature data is not an operation of the property's quantifier. *)
+Lemma replaced_data_unforced_stale :
+  forall hashf choice,
+    let w := run hashf choice repl_rows [0; 1] HEAD (init_world repl_rows [] [0]) repl_ops in
+    let w' := update hashf choice repl_rows [0; 1] HEAD w [] in
+    err w' = false /\ stale w' = [1] /\ a_all (flt w') <> spec_all choice repl_rows w.
+Proof. intros hashf choice. vm_compute. repeat split; try reflexivity. discriminate. Qed.
+
+(* an unknown feature name in `force` raises *)
+Example unknown_force_raises :
+  forall hashf choice,
+    err (update hashf choice repl_rows [0; 1] HEAD (init_world repl_rows [] [0]) [5]) = true.
+Proof. intros hashf choice. vm_compute. reflexivity. Qed.
+
+(* a limit beyond any pool size selects all qualifying events *)
+Example huge_limit :
+  forall hashf choice,
+    let w := run hashf choice repl_rows [0; 1] HEAD (init_world repl_rows [] [0])
+                 [SetMin 0 (Fin 8); SetMax 0 (Fin 16); SetLimit 4294967296] in
+    let w' := update hashf choice repl_rows [0; 1] HEAD w [] in
+    err w' = false /\ a_all (flt w') = [true; true; false; false].
 Proof. intros hashf choice. vm_compute. auto. Qed.
